@@ -22,9 +22,13 @@ def run_prog_property(ck, pid, prop_file, kinds, n_gen_quick, n_gen_thorough, st
     n = n_gen_quick if quick else n_gen_thorough
     for st in styles:
         sources += PC.generated_sources(ck, n // len(styles), style=st)
-    if extra_sources:
-        sources += extra_sources(ck)
+    extra = extra_sources(ck) if extra_sources else []
+    sources = extra + sources
     recs = PC.run_programs(ck, sources, pid.lower(), ninputs=ninputs_quick if quick else 24)
+    if extra:
+        bad = [rec["name"] + ": " + rec["rust_raw"][:80] for rec in recs[:len(extra)] if rec["status"] != "compiled"]
+        ck.obligation(f"all {len(extra)} hand-written scenario programs are accepted by the real compiler and evaluated",
+                      not bad, "; ".join(bad[:3]))
     issues, stats = PC.compare(recs)
     nviol = 0
     other_kinds = {}
